@@ -4,6 +4,7 @@ import (
 	"bytes"
 	"fmt"
 	"net"
+	"strings"
 	"sync"
 )
 
@@ -138,6 +139,9 @@ func cUDP(ctx *Ctx, prop string) {
 		n = 1000
 	}
 	cUDPInto(ctx, prop, n, 0)
+	if prop == "C03" || prop == "C16" {
+		udpMultiListener(ctx, prop)
+	}
 }
 
 // cUDPInto runs n UDP cases and writes their Coq case files starting at the given shard number.
@@ -214,6 +218,20 @@ func cUDPInto(ctx *Ctx, prop string, n int, shard int) {
 	}
 	if len(terms) > 0 {
 		ctx.WriteCases(shard, "Corr.UDP", "case", terms)
+	}
+	if prop == "C16" { // the same runs through the real Prometheus collectors
+		var cts []string
+		for _, j := range jobs {
+			if j.spec.coll != "" && j.fatal == "" {
+				cts = append(cts, j.spec.coll)
+				ctx.CountN("collector:calls", j.spec.collN)
+				ctx.Count("collector:cases")
+				for _, d := range j.spec.collDiffs {
+					ctx.Monitor("C16/gathered-counter-differs:"+strings.SplitN(d, ":", 2)[0], "Prometheus "+d, j.spec)
+				}
+			}
+		}
+		writeCollCases(ctx, shard+5000, cts)
 	}
 }
 
